@@ -33,7 +33,7 @@ ASSUMPTIONS = ["rate constant over the interval (the property's premise)", "rela
 REQUIRED = ["C06:split-invariance", "C06:same-instant-zero", "C06:earlier-time-rejected", "C06:query-changes-nothing",
             "C06:twin-query-bit-identical", "C06:positive-never-charged", "C06:negative-charged-at-r+m",
             "C06:margin-earns-nothing", "C06:rebalance-reports-interest", "C06:failed-rebalance-accrues-once"]
-REQUIRED_CATS = ["query-beyond-next-accrual", "rate-quote-type:f32", "rate-quote-type:int", "rate-quoted-two-sided", "sub-second-spacing", "tz-aware-changing-offsets"]
+REQUIRED_CATS = ["refused-request-then-accrual", "query-beyond-next-accrual", "rate-quote-type:f32", "rate-quote-type:int", "rate-quoted-two-sided", "sub-second-spacing", "tz-aware-changing-offsets"]
 REQUIRED_HITS = ["Broker.accrued_interest"]
 TECHNIQUE = "runtime monitoring: closed-form reference model (60-digit decimal) and twin runs over generated accrual schedules"
 LEVEL_TEXT = ("Exploration. The real Broker.accrued_interest / Broker.rebalance are driven through thousands of generated accrual "
@@ -132,6 +132,7 @@ def case(ctx, i, tier):
     cash0 = b.holdings_quantity[Cash()]
     ctx.cat("mode:" + mode, "cash:" + ("neg" if cash0 < 0 else "pos"), "k:{}".format(k),
             "markup>0" if markup > 0 else "markup=0")
+    carry = 0.0
     # the interest clock starts at the first call of either kind (DESIGN 4.2-d)
     b.accrued_interest(t0, True)
     twin.accrued_interest(t0, True)
@@ -172,7 +173,33 @@ def case(ctx, i, tier):
             b.rebalance(r)
             amt = r.profit_on_idle_cash
             twin_amt = twin.accrued_interest(t, True)
-            ctx.check("C06:rebalance-reports-interest", float(amt) == float(twin_amt), reported=float(amt), twin=float(twin_amt))
+            # (a recorded rebalance also reports what earlier, refused requests had credited - nobody else does)
+            want_rep = carry + float(twin_amt)
+            ctx.check("C06:rebalance-reports-interest", float(amt) == want_rep, reported=float(amt), twin=float(twin_amt), carried=carry)
+            carry = 0.0
+            amt = twin_amt
+        elif cash0 > 0 and mode == "plain" and rng.random() < 0.2:
+            # a request REFUSED while its trades are computed (a target without quote) on a solvent account; the caller
+            # catches the error: the interest of the stretch was credited once (C13 allows it) and the clock moved
+            # with it - never taken back while the clock stays advanced, never paid again
+            interleaved = True
+            r = Rebalancing([ETF("NEVER_QUOTED")], [0.1], time=t)
+            try:
+                b.rebalance(r)
+                failed = False
+            except Exception:
+                failed = True
+            ctx.check("C06:setup-rebalance-fails", failed)
+            credited = b.holdings_quantity[Cash()] != bal_before
+            amt = twin.accrued_interest(t, True)
+            if not credited:
+                b.accrued_interest(t, True)
+            else:
+                carry += float(amt)
+            ctx.check("C06:failed-rebalance-accrues-once", b.holdings_quantity[Cash()] == twin.holdings_quantity[Cash()],
+                      credited_by_rebalance=credited, account=b.holdings_quantity[Cash()], twin=twin.holdings_quantity[Cash()],
+                      before=bal_before, refused_in="make_trades")
+            ctx.cat("refused-request-then-accrual")
         elif mode != "plain" and rng.random() < 0.25:
             # a rebalance that accrues and then FAILS (insolvent account, or the held contract has lost its quote):
             # the interest of the stretch may have been credited (C13) - if it was, the accrual clock moved with
